@@ -8,7 +8,7 @@ fn sign_ok(diff: i128, r: i128) -> bool {
 macro_rules! dt_since {
     ($name:ident, $method:ident, $per:expr) => {
         pub fn $name(d1: i32, n1: u64, o1: i32, d2: i32, n2: u64, o2: i32) {
-            assume(n1 < NPD as u64 && n2 < NPD as u64);
+            assume(n1 < NPD as u64); assume(n2 < NPD as u64);
             let a = dt(d1, n1, o1);
             let b = dt(d2, n2, o2);
             let diff = inst(d1, n1) - inst(d2, n2);
@@ -31,7 +31,7 @@ dt_since!(c06_dt_nanos_since_holds, nanos_since, 1i128);
 macro_rules! time_since {
     ($name:ident, $method:ident, $per:expr) => {
         pub fn $name(n1: u64, o1: i32, n2: u64, o2: i32) {
-            assume(n1 < NPD as u64 && n2 < NPD as u64);
+            assume(n1 < NPD as u64); assume(n2 < NPD as u64);
             let a = tm(n1, o1);
             let b = tm(n2, o2);
             let diff = n1 as i128 - n2 as i128;
@@ -56,7 +56,7 @@ pub fn c06_date_days_since_holds(d1: i32, d2: i32) {
 }
 /// duration_between is the absolute difference and is symmetric
 pub fn c06_dt_duration_between_holds(d1: i32, n1: u64, o1: i32, d2: i32, n2: u64, o2: i32) {
-    assume(n1 < NPD as u64 && n2 < NPD as u64);
+    assume(n1 < NPD as u64); assume(n2 < NPD as u64);
     let a = dt(d1, n1, o1);
     let b = dt(d2, n2, o2);
     let diff = inst(d1, n1) - inst(d2, n2);
@@ -67,7 +67,7 @@ pub fn c06_dt_duration_between_holds(d1: i32, n1: u64, o1: i32, d2: i32, n2: u64
     assert!(y.as_secs() == x.as_secs() && y.subsec_nanos() == x.subsec_nanos());
 }
 pub fn c06_time_duration_between_holds(n1: u64, o1: i32, n2: u64, o2: i32) {
-    assume(n1 < NPD as u64 && n2 < NPD as u64);
+    assume(n1 < NPD as u64); assume(n2 < NPD as u64);
     let diff = n1 as i128 - n2 as i128;
     let abs = if diff < 0 { -diff } else { diff };
     let x = tm(n1, o1).duration_between(&tm(n2, o2));
@@ -87,7 +87,7 @@ pub fn c06_date_duration_between_holds(d1: i32, d2: i32) {
 macro_rules! add_inverse {
     ($name:ident, $add:ident, $since:ident, $per:expr) => {
         pub fn $name(d: i32, n: u64, off: i32, k: u32) {
-            assume(n < NPD as u64 && valid_off(off));
+            assume(n < NPD as u64); assume(off > -86_400); assume(off < 86_400);
             assume(in_range(inst(d, n) + k as i128 * ($per as i128)));     // "whenever the add returns" (C04 decides that it does)
             let a = dt(d, n, off);
             let b = a.$add(k);
